@@ -52,7 +52,15 @@ RULE = ("Hypothesis-drawn real height maps (white noise, smooth band-limited noi
         "new array or a new dx assigned through the public attributes, the object's own remove_piston / remove_tiptilt / fill, reads "
         "of its scalar statistics, and overwriting the arrays of a PSD object returned earlier; every spectral call is checked against "
         "the oracle for the data and dx the object holds at that moment; non-trivial there = a spectral call after a change since the "
-        "previous spectral call.")
+        "previous spectral call.  Round-7 hardening (how the object comes to hold its spacing): on every method route (psd, sinusoid, band-limited "
+        "RMS, TIS, both state machines) the Interferogram is built in a drawn way - spacing given positionally / by keyword, with or without a "
+        "metadata dictionary as the Zygo readers report it ('lateral_resolution' / 'Lateral Resolution' / both / neither, in metres, naming "
+        "another spacing, the same spacing, or 0; 'wavelength' / 'Wavelength'; wavelength argument default / None / 0 / given), constructed with "
+        "dx = 0 and the spacing assigned to the public attribute afterwards, or calibrated with latcal() from dx = 0 / 1 / another spacing; the "
+        "spacing exactly 1 (the value strip_latcal() leaves behind) is drawn in about 4 of 10 cases; the oracle always uses the spacing that was "
+        "given explicitly; the metadata dictionary must come back unchanged.  object_history also calls latcal(v) (spacing v from then on), "
+        "strip_latcal() (spacing 1) and assigns new metadata dictionaries, and tracks the spacing the object was given last itself instead of "
+        "reading it from the object (bucket Interferogram:dx when the two differ).")
 ASSUMPTIONS = ["numpy.fft.fft2 / fftfreq / fftshift are correct", "make_window() returns the window psd() documents for a window name / None "
                "(the oracle needs the window itself to form the window-weighted mean square)",
                "a real NumPy 1.x runtime is not installed: only the trapz/trapezoid API difference is emulated through prysm.mathops' shim",
